@@ -324,26 +324,26 @@ Definition rmdir (s : st) (cwd cs : path) : res :=
   end.
 
 (* os.makedirs(name, exist_ok=True), CPython 3.12 *)
+Definition makedirs_final (s : st) (cwd name : path) : res :=
+  match mkdir s cwd name with
+  | (s', Some e) => if isdir (fst s') cwd name then ok s' else fail s' e
+  | r => r
+  end.
+
 Fixpoint makedirs (fuel : nat) (s : st) (cwd name : path) : res :=
-  let name' := strip_trailing_empty name in
-  let final (s : st) : res :=
-      match mkdir s cwd name with
-      | (s', Some e) => if isdir (fst s') cwd name then ok s' else fail s' e
-      | r => r
-      end in
   match fuel with
-  | O => final s
+  | O => makedirs_final s cwd name
   | S fuel' =>
-      match split_last name' with
-      | None => final s
+      match split_last (strip_trailing_empty name) with
+      | None => makedirs_final s cwd name
       | Some (head0, tail) =>
           let head := strip_trailing_empty head0 in
           if negb (is_nil head) && negb (is_nil tail) && negb (exists_ (fst s) cwd head) then
             match makedirs fuel' s cwd head with
             | (s', Some EOS) => fail s' EOS
-            | (s', _) => if str_eqb tail s_dot then ok s' else final s'
+            | (s', _) => if str_eqb tail s_dot then ok s' else makedirs_final s' cwd name
             end
-          else final s
+          else makedirs_final s cwd name
       end
   end.
 
